@@ -86,55 +86,75 @@ structure VersionList where
   entries   : List VerEntry
   prefixes  : List Bytes
   truncated : Bool
+  /-- `NextKeyMarker` / `NextVersionIdMarker`: the first entry NOT returned (`[]` / `none` = absent) -/
+  nextKey   : Bytes := []
+  nextVer   : Option Nat := none
 deriving Repr, DecidableEq
 
 /-- `bucketObjectIterator`: archived versions ascending, then the current one -/
 def Obj.allVersions (o : Obj) : List (Ver × Bool) :=
   o.versions.map (·, false) ++ (match o.data with | some d => [(d, true)] | none => [])
 
-/-- `bucketObjectIterator.Seek(marker)` then `Next`…: exclusive on archived versions,
-    inclusive on the current one; `none` = the marker was not found (ErrInternal) -/
-def Obj.versionsAfter (o : Obj) (vid : Nat) : Option (List (Ver × Bool)) :=
-  -- skiplist Seek positions at the first archived id ≥ vid; the following Next() skips it
+/-- `bucketObjectIterator.Seek(marker)` then `Next`…: the listing resumes AT the version sought
+    (the first archived id ≥ vid, else the current one if it has that id); `none` = the marker
+    was not found (ErrInternal) -/
+def Obj.versionsFrom (o : Obj) (vid : Nat) : Option (List (Ver × Bool)) :=
   match o.versions.dropWhile (fun v => v.id < vid) with
-  | _ :: rest => some (rest.map (·, false) ++ (match o.data with | some d => [(d, true)] | none => []))
+  | v :: rest => some ((v :: rest).map (·, false) ++ (match o.data with | some d => [(d, true)] | none => []))
   | [] =>
     match o.data with
     | some d => if d.id == vid then some [(d, true)] else none
     | none => none
 
+/-- the result of the inner loop: `none` = the key's versions are exhausted below the limit;
+    `some none` = the limit was reached with the key's last version; `some (some id)` = the limit
+    was reached and `id` is the first version of this key not returned -/
 def verLoopInner (k : Key) (masked : Bool) (maxKeys : Int) :
-    List (Ver × Bool) → Int → List VerEntry → (List VerEntry × Int × Option Bool)
+    List (Ver × Bool) → Int → List VerEntry → (List VerEntry × Int × Option (Option Nat))
   | [], cnt, acc => (acc, cnt, none)
   | (v, isCur) :: rest, cnt, acc =>
     let e : VerEntry := ⟨k, if masked then none else some v.id, v.marker, isCur, v.body.length, v.hash⟩
     let cnt' := cnt + 1
-    if maxKeys > 0 ∧ cnt' ≥ maxKeys then (acc ++ [e], cnt', some (!rest.isEmpty))
+    if maxKeys > 0 ∧ cnt' ≥ maxKeys then (acc ++ [e], cnt', some (rest.head?.map (·.1.id)))
     else verLoopInner k masked maxKeys rest cnt' (acc ++ [e])
 
-/-- the outer loop of `ListBucketVersions`; `first` carries the version-id marker for the
-    first object visited -/
-def verLoop (p : Prefix) (masked : Bool) (maxKeys : Int) :
-    List (Key × Obj) → (first : Option Nat) → Int → VersionList → Res VersionList
-  | [], _, _, acc => .ok acc
-  | (k, o) :: rest, first, cnt, acc =>
+/-- the `done:` loop: the first following key that matches the prefix, with its first version -/
+def nextMatching (p : Prefix) : List (Key × Obj) → Option (Key × Nat)
+  | [] => none
+  | (k, o) :: rest =>
     match p.match_ k with
-    | none => verLoop p masked maxKeys rest first cnt acc
+    | none => nextMatching p rest
+    | some _ =>
+      match o.allVersions.head? with
+      | some v => some (k, v.1.id)
+      | none => nextMatching p rest
+
+/-- the outer loop of `ListBucketVersions`; the version-id marker applies to the marker key only -/
+def verLoop (p : Prefix) (masked : Bool) (maxKeys : Int) (keyMarker : Bytes) (verMarker : Option Nat) :
+    List (Key × Obj) → Int → VersionList → Res VersionList
+  | [], _, acc => .ok acc
+  | (k, o) :: rest, cnt, acc =>
+    match p.match_ k with
+    | none => verLoop p masked maxKeys keyMarker verMarker rest cnt acc
     | some (true, mp) =>
-      verLoop p masked maxKeys rest first cnt
+      verLoop p masked maxKeys keyMarker verMarker rest cnt
         (if acc.prefixes.contains mp then acc else { acc with prefixes := acc.prefixes ++ [mp] })
     | some (false, _) =>
       let vs? : Option (List (Ver × Bool)) :=
-        match first with
-        | some vid => o.versionsAfter vid
+        match verMarker with
+        | some vid => if k == keyMarker then o.versionsFrom vid else some o.allVersions
         | none => some o.allVersions
       match vs? with
       | none => .err .Internal
       | some vs =>
         let (entries, cnt', stop) := verLoopInner k masked maxKeys vs cnt acc.entries
         match stop with
-        | some more => .ok { acc with entries := entries, truncated := more || !rest.isEmpty }
-        | none => verLoop p masked maxKeys rest none cnt' { acc with entries := entries }
+        | some (some vid) => .ok { acc with entries := entries, truncated := true, nextKey := k, nextVer := some vid }
+        | some none =>
+          (match nextMatching p rest with
+           | some (nk, nv) => .ok { acc with entries := entries, truncated := true, nextKey := nk, nextVer := some nv }
+           | none => .ok { acc with entries := entries })
+        | none => verLoop p masked maxKeys keyMarker verMarker rest cnt' { acc with entries := entries }
 
 /-- `Backend.ListBucketVersions`; `keyMarker = []` = none (then the version marker is ignored) -/
 def Mem.listVersions (m : Mem) (b : Bytes) (p : Prefix) (keyMarker : Bytes) (verMarker : Option Nat)
@@ -144,17 +164,12 @@ def Mem.listVersions (m : Mem) (b : Bytes) (p : Prefix) (keyMarker : Bytes) (ver
   | some bk =>
     let masked := bk.versioning == .none
     if keyMarker.isEmpty then
-      verLoop p masked maxKeys bk.objects verMarker 0 ⟨[], [], false⟩
+      verLoop p masked maxKeys [] none bk.objects 0 ⟨[], [], false, [], none⟩
     else
       match p.match_ keyMarker with
       | none => .err .Internal
       | some _ =>
-        -- inclusive seek: objects with key ≥ keyMarker
-        let from_ := bk.objects.filter (fun q => !Bytes.lt q.1 keyMarker)
-        if from_.isEmpty then
-          -- the seek failed; the loop does not run, and the final `iter.Next()` restarts from the
-          -- head of the list: IsTruncated is reported although nothing follows
-          .ok ⟨[], [], !bk.objects.isEmpty⟩
-        else verLoop p masked maxKeys from_ verMarker 0 ⟨[], [], false⟩
+        -- inclusive seek: objects with key ≥ keyMarker; nothing there = an empty, complete listing
+        verLoop p masked maxKeys keyMarker verMarker (bk.objects.filter (fun q => !Bytes.lt q.1 keyMarker)) 0 ⟨[], [], false, [], none⟩
 
 end GFS.Model
